@@ -475,8 +475,8 @@ where
 
     fn set_resample_ratio(&mut self, new_ratio: f64, ramp: bool) -> ResampleResult<()> {
         trace!("Change resample ratio to {}", new_ratio);
-        if (new_ratio / self.resample_ratio_original >= 1.0 / self.max_relative_ratio)
-            && (new_ratio / self.resample_ratio_original <= self.max_relative_ratio)
+        if (new_ratio >= self.resample_ratio_original / self.max_relative_ratio)
+            && (new_ratio <= self.resample_ratio_original * self.max_relative_ratio)
         {
             if !ramp {
                 self.resample_ratio = new_ratio;
@@ -494,7 +494,18 @@ where
 
     fn set_resample_ratio_relative(&mut self, rel_ratio: f64, ramp: bool) -> ResampleResult<()> {
         let new_ratio = self.resample_ratio_original * rel_ratio;
-        self.set_resample_ratio(new_ratio, ramp)
+        if (rel_ratio >= 1.0 / self.max_relative_ratio) && (rel_ratio <= self.max_relative_ratio) {
+            // In range: keep rounding of the product from leaving the absolute bounds.
+            let min_ratio = self.resample_ratio_original / self.max_relative_ratio;
+            let max_ratio = self.resample_ratio_original * self.max_relative_ratio;
+            self.set_resample_ratio(new_ratio.max(min_ratio).min(max_ratio), ramp)
+        } else {
+            Err(ResampleError::RatioOutOfBounds {
+                provided: new_ratio,
+                original: self.resample_ratio_original,
+                max_relative_ratio: self.max_relative_ratio,
+            })
+        }
     }
 
     fn reset(&mut self) {
@@ -779,8 +790,8 @@ where
 
     fn set_resample_ratio(&mut self, new_ratio: f64, ramp: bool) -> ResampleResult<()> {
         trace!("Change resample ratio to {}", new_ratio);
-        if (new_ratio / self.resample_ratio_original >= 1.0 / self.max_relative_ratio)
-            && (new_ratio / self.resample_ratio_original <= self.max_relative_ratio)
+        if (new_ratio >= self.resample_ratio_original / self.max_relative_ratio)
+            && (new_ratio <= self.resample_ratio_original * self.max_relative_ratio)
         {
             if !ramp {
                 self.resample_ratio = new_ratio;
@@ -803,7 +814,18 @@ where
 
     fn set_resample_ratio_relative(&mut self, rel_ratio: f64, ramp: bool) -> ResampleResult<()> {
         let new_ratio = self.resample_ratio_original * rel_ratio;
-        self.set_resample_ratio(new_ratio, ramp)
+        if (rel_ratio >= 1.0 / self.max_relative_ratio) && (rel_ratio <= self.max_relative_ratio) {
+            // In range: keep rounding of the product from leaving the absolute bounds.
+            let min_ratio = self.resample_ratio_original / self.max_relative_ratio;
+            let max_ratio = self.resample_ratio_original * self.max_relative_ratio;
+            self.set_resample_ratio(new_ratio.max(min_ratio).min(max_ratio), ramp)
+        } else {
+            Err(ResampleError::RatioOutOfBounds {
+                provided: new_ratio,
+                original: self.resample_ratio_original,
+                max_relative_ratio: self.max_relative_ratio,
+            })
+        }
     }
 
     fn reset(&mut self) {
